@@ -29,6 +29,7 @@ ASSUMPTIONS = [
     "(the '250+key=' line carries an empty first line)",
     "GETINFO keys are distinct within a call and never contain '=' or white space",
     "multi-line values are requested alone (statement: 'of a single requested key')",
+    "in 20% of the random cases one or two earlier calls (plain / per-line / incremental, answered 2xx or 5xx) were made and answered on the same connection first; they must not change the result",
     "in 30% of the random cases an unsubscribed 650 event (single / multi-line / data form) is delivered between the command and its reply; it must not change the result",
 ]
 TRUSTED_BASE = ["vf.refs.reply", "vf.ctl.Session"]
@@ -38,7 +39,7 @@ ANCHORS = ["txtorcon.torcontrolprotocol:parse_keywords", "txtorcon.torcontrolpro
            "txtorcon.torcontrolprotocol:TorControlProtocol.get_conf",
            "txtorcon.torcontrolprotocol:TorControlProtocol.get_conf_single",
            "txtorcon.torcontrolprotocol:TorControlProtocol._accumulate_multi_response"]
-FLOORS = {"quick": {"evaluations": 3000, "results_compared": 3000, "reach:txtorcon.torcontrolprotocol:parse_keywords": 3000},
+FLOORS = {"quick": {"evaluations": 3000, "results_compared": 3000, "earlier_calls_on_same_connection": 800, "reach:txtorcon.torcontrolprotocol:parse_keywords": 3000},
           "thorough": {"evaluations": 40000, "results_compared": 40000}}
 
 ALPHA = ["a", "=", " ", '"', "'", "2", "5", "0", ".", "O", "K"]
@@ -88,7 +89,7 @@ class Ctx(object):
 
 
 def call(s, api, keys, reply, cmdline, event=None):
-    s.replies[cmdline.encode("ascii")] = reply
+    s.set_reply(cmdline.encode("ascii"), reply)
     if event is not None:
         # an asynchronous event reaches the client between the command and its reply
         data = R.encode_event(event["name"], event["form"], event["text"], event.get("more", ()))
@@ -103,6 +104,43 @@ def call(s, api, keys, reply, cmdline, event=None):
     return o, None
 
 
+PRIOR = {
+    # earlier traffic on the same connection: (api, args-maker, command line, reply)
+    "incremental-5xx": ("get_info_incremental", "GETINFO bad/key", (552, [("end", 'Unrecognized key "bad/key"')])),
+    "incremental-2xx": ("get_info_incremental", "GETINFO ns/name/x", (250, [("data", "ns/name/x=", ["r x", "s Fast"]), ("end", "OK")])),
+    "perline-5xx": ("queue_command", "GETINFO foo/bar", (551, [("mid", "first"), ("end", "Internal error")])),
+    "get_info-5xx": ("get_info", "GETINFO no/such", (552, [("end", 'Unrecognized key "no/such"')])),
+    "get_conf-5xx": ("get_conf", "GETCONF NoSuchOption", (552, [("end", 'Unrecognized configuration key "NoSuchOption"')])),
+    "set_conf-5xx": ("set_conf", "SETCONF ORPort=bogus", (513, [("end", "Unacceptable option value")])),
+    "get_info-2xx": ("get_info", "GETINFO traffic/read", (250, [("mid", "traffic/read=5"), ("end", "OK")])),
+}
+
+
+def do_prior(s, kind, rec):
+    api, line, reply = PRIOR[kind]
+    s.set_reply(line.encode("ascii"), reply)
+    sink = []
+    arg = line.split(" ", 1)[1]
+    try:
+        if api == "get_info_incremental":
+            d = s.proto.get_info_incremental(arg, sink.append)
+        elif api == "queue_command":
+            d = s.proto.queue_command(line, sink.append)
+        elif api == "set_conf":
+            d = s.proto.set_conf(*arg.split("=", 1))
+        else:
+            d = getattr(s.proto, api)(arg)
+    except Exception as e:
+        return repr(e)
+    o = s.aud.watch(d, "prior:" + kind)
+    s.run()
+    rec.count("earlier_calls_on_same_connection")
+    # only that it was resolved is asked here (get_conf logs and swallows a 5xx; not C13's subject)
+    if o.fired != 1:
+        return "earlier call %s: %r" % (kind, o.describe())
+    return None
+
+
 def run_case(case, rec, ctx):
     api = case["api"]
     chunking = case.get("chunking") or [1 << 30]
@@ -114,6 +152,13 @@ def run_case(case, rec, ctx):
         return
     nexc = len(s.exceptions)
     s.log.take()
+    for kind in case.get("before", ()):
+        problem = do_prior(s, kind, rec)
+        if problem:
+            rec.violation("earlier-call-not-resolved", "after-" + kind, {"problem": problem}, case)
+            rec.case(case)
+            ctx.s = None
+            return
     if api in ("get_info", "get_info_single"):
         keys = case["keys"]
         vals = case["values"]
@@ -219,7 +264,7 @@ def run_shard(spec, rec):
                 for _ in range(nl):
                     q = rnd.random()
                     if q < 0.15:
-                        lines.append(rnd.choice(["other=1", "x/y=z", "k v=w", "250 OK", "650 X", "="]))
+                        lines.append(rnd.choice(["other=1", "x/y=z", "k v=w", "250 OK", "650 X", "=", ".", "..", "...", "", ".x"]))
                     elif q < 0.18 and spec.get("edge"):
                         lines.append(rnd.choice([k + "=again", "OK", " ."]))
                     else:
@@ -237,6 +282,8 @@ def run_shard(spec, rec):
                     vals = [gen.text(rnd, maxlen=30, dots=False) for _ in range(rnd.choice([1, 1, 2, 3, 4, 5]))]
                 case = {"api": rnd.choice(["get_conf", "get_conf_single"]), "keys": [k], "values": vals}
             case["chunking"] = gen.chunking(rnd)
+            if rnd.random() < 0.2:
+                case["before"] = [rnd.choice(sorted(PRIOR)) for _ in range(rnd.choice([1, 1, 2]))]
             if rnd.random() < 0.3:
                 form = rnd.choice(["single", "multi", "data"])
                 case["event"] = {"name": rnd.choice(["CONF_CHANGED", "NS", "STREAM", "BW"]), "form": form,
